@@ -264,17 +264,24 @@ class Ctx:
         self.assume(f)
         return False
 
-    def prove_from(self, name, hyps, goal, note=""):
+    def prove_from(self, name, hyps, goal, note="", opaque=False):
         """prove `goal` from the listed facts only (each must already be part of the path condition): a small
-        self-contained query, used for proof hints so that they do not drag the whole path condition along"""
+        self-contained query, used for proof hints so that they do not drag the whole path condition along.
+        opaque=True additionally hides every recursive definition behind an uninterpreted symbol of the same signature
+        (the query then only uses congruence for them: strictly weaker hypotheses, so a proof remains a proof; it stops the
+        solver from unfolding definitions without end in queries that do not need them)."""
         for h in hyps:
             if not any(h.eq(x) for x in self.pc):
                 raise EngineError("prove_from: hypothesis is not a fact of the path condition: %s" % h.sexpr()[:120])
         t0 = time.time()
         so = z3.Solver()
         so.set("timeout", self.timeout_ms)
-        so.add(*hyps)
-        so.add(z3.Not(goal))
+        qh, qg = list(hyps), goal
+        if opaque:
+            qs = hide_recursive(qh + [qg])
+            qh, qg = qs[:-1], qs[-1]
+        so.add(*qh)
+        so.add(z3.Not(qg))
         r = so.check()
         ms = (time.time() - t0) * 1000
         self.solver_ms += ms
@@ -289,12 +296,79 @@ class Ctx:
             self.assume(goal)
         return ok
 
+    def prove_lemma(self, name, hyps, goal, note="", opaque=False):
+        """a self-contained lemma `hyps => goal` on a fresh solver: the hypotheses are part of the STATEMENT (an induction hypothesis,
+        an instance of a definition), they need not be facts of the path and nothing becomes one.  opaque: see prove_from."""
+        t0 = time.time()
+        qs = list(hyps) + [goal]
+        if opaque:
+            qs = hide_recursive(qs)
+        r = z3.unknown
+        for seed in (0, 7, 101):
+            so = z3.Solver()
+            so.set("timeout", self.timeout_ms)
+            so.set("random_seed", seed)
+            so.add(*qs[:-1])
+            so.add(z3.Not(qs[-1]))
+            r = so.check()
+            self.nchecks += 1
+            if r != z3.unknown:
+                break
+        ms = (time.time() - t0) * 1000
+        self.solver_ms += ms
+        if r == z3.unsat:
+            self.results.append(Result(name, "proved", None, ms, self._path_id(), note))
+            return True
+        if r == z3.sat:
+            m = so.model()
+            model = {}
+            for k, v in self.inputs.items():
+                try:
+                    model[k] = _model_value(m, v)
+                except Exception as ex:  # pragma: no cover
+                    model[k] = "?" + str(ex)
+            self.results.append(Result(name, "failed", model, ms, self._path_id(), note))
+        else:
+            self.results.append(Result(name, "unknown", None, ms, self._path_id(), note or so.reason_unknown()))
+        self.tainted = True
+        return False
+
     def fail(self, name, note=""):
         """the code reached a state the contract forbids on a feasible path (e.g. a wrong exception class)"""
         return self.prove(name, z3.BoolVal(False), note)
 
     def _path_id(self):
         return [d[0] for d in self.decisions[: self.pos]]
+
+
+def hide_recursive(exprs):
+    """the same formulas with every application of a recursive function replaced by an uninterpreted function of the same signature"""
+    decls = {}
+
+    def collect(e, seen):
+        if e.get_id() in seen:
+            return
+        seen.add(e.get_id())
+        if z3.is_quantifier(e):
+            collect(e.body(), seen)
+            return
+        if z3.is_app(e):
+            d = e.decl()
+            if d.kind() == z3.Z3_OP_RECURSIVE and d.name() not in decls:
+                decls[d.name()] = d
+            for k in e.children():
+                collect(k, seen)
+    seen = set()
+    for e in exprs:
+        collect(e, seen)
+    if not decls:
+        return list(exprs)
+    subs = []
+    for nm, d in decls.items():
+        dom = [d.domain(i) for i in range(d.arity())]
+        u = z3.Function(nm + "!opaque", *(dom + [d.range()]))
+        subs.append((d, u(*[z3.Var(i, dom[i]) for i in range(d.arity())])))
+    return [z3.substitute_funs(e, *subs) for e in exprs]
 
 
 def _b(c):
